@@ -35,6 +35,8 @@ def run(prog, chk):
     ]
     chk.decided += ["a mark class definition already present in the feature file stands for the anchor about to be written only when the two are equal field by field (x, y, contour point, device "
                     "tables) by plain equality - a variable anchor never equals a fixed one, so its per-master values are not replaced by the default master's (R06.18 = R10.8)"]
+    chk.decided += ["no feature-writer method answers from a value it parked in self.context on an earlier call when its result depends on its arguments (the grouping of mark classes is computed per "
+                    "attachment list: base and ligature attachments do not share one grouping) (R06.19)"]
     chk.decided += ["a mark feature is only dropped when it would be empty: the nothing-to-write return of each feature builder tests every lookup list that is written into the feature "
                     "(a feature holding only mark-to-mark lookups is still emitted) (R06.17)"]
     chk.decided += ["the mark-class conflict graph is complete and symmetric: for every mark glyph, every pair of its classes is connected in both directions before the graph is coloured "
@@ -59,6 +61,7 @@ def run(prog, chk):
     chk.guard(r0616, prog, chk)
     chk.guard(r0617, prog, chk)
     chk.guard(r0618, prog, chk, "R06.18")
+    chk.guard(check_no_unkeyed_context_memo, prog, chk, "R06.19")
     from .rounding import check_no_truthiness_on_coordinates
     n = check_no_truthiness_on_coordinates(prog, chk, "R06.9", [MARK, "ufo2ft.featureWriters.baseFeatureWriter"])
     need(n >= 40, "truthiness scan found too few tests")
@@ -968,7 +971,99 @@ def r0618(prog, chk, rule="R06.18"):
     chk.minimum(rule, 1)
 
 
+# ----------------------------------------------------------------------------- R06.19 (shared with C08 as R08.11)
+def check_no_unkeyed_context_memo(prog, chk, rule):
+    """Memoisation through the per-write context: `v = self.context.x; if v: return v; ...; self.context.x = f(args); return ...`.
+    Correct only when the result does not depend on the arguments - otherwise the second caller gets the first caller's answer."""
+    ix = prog.ix
+    n, hits = 0, 0
+    for fi in ix.functions.values():
+        if isinstance(fi.node, ast.Lambda) or fi.cls is None or not fi.module.name.startswith("ufo2ft.featureWriters"):
+            continue
+        params = [p_ for p_ in fi.params() if p_ not in ("self", "cls")]
+        if not params:
+            continue
+        n += 1
+        stores = {}
+        for s_, t, v in [(s_, t, v) for s_ in A.stmts_of(fi.node) if isinstance(s_, ast.Assign) for t in s_.targets for v in [s_.value]]:
+            for el in (t.elts if isinstance(t, (ast.Tuple, ast.List)) else [t]):
+                if isinstance(el, ast.Attribute) and T(el.value) in ("self.context", "ctx", "context") and (T(el.value) == "self.context" or _is_context_alias(prog, fi, el.value)):
+                    stores.setdefault(el.attr, []).append((s_, v))
+        if not stores:
+            continue
+
+        def depends_on_params(e, seen=None, depth=0):
+            seen = set() if seen is None else seen
+            for x in ast.walk(e):
+                if isinstance(x, ast.Name) and isinstance(x.ctx, ast.Load):
+                    if x.id in params and all(d.kind == "param" for d in prog.reaching(fi, x.id, x)):
+                        return True
+                    if depth < 4 and x.id not in ("self",):
+                        for d in prog.reaching(fi, x.id, x):
+                            k = (x.id, id(d.binder))
+                            if k in seen or d.value is None:
+                                continue
+                            seen.add(k)
+                            if depends_on_params(d.value, seen, depth + 1):
+                                return True
+                        # a container filled in place: what is put in, and the loops it is filled under
+                        for c in A.body_nodes(fi.node):
+                            recv = None
+                            if isinstance(c, ast.Call) and isinstance(c.func, ast.Attribute) and c.func.attr in ("update", "add", "append", "extend", "setdefault", "insert"):
+                                recv = c.func.value
+                            elif isinstance(c, ast.Assign) and isinstance(c.targets[0], ast.Subscript):
+                                recv = c.targets[0].value
+                            while isinstance(recv, (ast.Subscript, ast.Attribute, ast.Call)):
+                                recv = recv.func.value if isinstance(recv, ast.Call) and isinstance(recv.func, ast.Attribute) else getattr(recv, "value", None)
+                            if isinstance(recv, ast.Name) and recv.id == x.id:
+                                k = (x.id, "fill", id(c))
+                                if k in seen:
+                                    continue
+                                seen.add(k)
+                                for lp in [a for a in prog.ix.ancestors(c) if isinstance(a, ast.For)]:
+                                    if depends_on_params(lp.iter, seen, depth + 1):
+                                        return True
+                                args = c.args if isinstance(c, ast.Call) else [c.value]
+                                if any(depends_on_params(a, seen, depth + 1) for a in args):
+                                    return True
+            return False
+
+        def reads_field(e, fld):
+            for x in ast.walk(e):
+                if isinstance(x, ast.Attribute) and x.attr == fld and T(x.value) == "self.context" and isinstance(x.ctx, ast.Load):
+                    return True
+                if isinstance(x, ast.Call) and isinstance(x.func, ast.Name) and x.func.id == "getattr" and len(x.args) >= 2 and T(x.args[0]) == "self.context" and A.is_const(x.args[1], fld):
+                    return True
+            return False
+        for fld, sts in stores.items():
+            if not any(depends_on_params(v) for s_, v in sts):
+                continue
+            for r in A.returns_of(fi.node):
+                if r.value is None:
+                    continue
+                srcs = [r.value]
+                if isinstance(r.value, ast.Name):
+                    srcs = [d.value for d in prog.reaching(fi, r.value.id, r.value) if d.value is not None]
+                if any(reads_field(x, fld) for x in srcs) and not any(x is v for x in srcs for s_, v in sts):
+                    hits += 1
+                    chk.ob(rule, f"{fi.short}|self.context.{fld} answers later calls", False, where(fi, r), detail=T(r, 60),
+                           message=f"{fi.short} returns what an earlier call stored in self.context.{fld} although that value was computed from its arguments "
+                                   f"({', '.join(params)}): the second caller (another attachment list, another feature) gets the first one's answer")
+    chk.ob(rule, "no feature-writer method memoises an argument-dependent result in the context", hits == 0, "", detail=f"{n} methods with parameters examined", nontrivial=False)
+    need(n >= 40, f"{rule}: feature-writer methods examined: {n}")
+    chk.minimum(rule, 1)
+
+
+def _is_context_alias(prog, fi, e) -> bool:
+    if not isinstance(e, ast.Name):
+        return False
+    ds = prog.reaching(fi, e.id, e)
+    return bool(ds) and all(d.value is not None and T(d.value) == "self.context" for d in ds)
+
+
 MUTANTS = [
+    M("mark class grouping computed once per write and reused for the ligature attachments (seeded C06k)", "ufo2ft/featureWriters/markFeatureWriter.py", "MarkFeatureWriter._groupMarkClasses",
+      "colorGroups = colorGraph(adjacency)", "cached = getattr(self.context, 'colorGroups', None)\nif cached:\n    return cached\ncolorGroups = self.context.colorGroups = colorGraph(adjacency)", rule="R06.19"),
     M("a variable anchor 'equals' an existing fixed mark class anchor when the default master agrees (seeded C10j)", "ufo2ft/featureWriters/markFeatureWriter.py", "MarkFeatureWriter._anchorsAreEqual",
       "getattr(a1, attr) == getattr(a2, attr)", "getattr(getattr(a1, attr), 'default', getattr(a1, attr)) == getattr(getattr(a2, attr), 'default', getattr(a2, attr))", rule="R06.18"),
     M("existing mark class reused when only x and y agree", "ufo2ft/featureWriters/markFeatureWriter.py", "MarkFeatureWriter._anchorsAreEqual",
